@@ -598,6 +598,8 @@ def make_machine(ctx, W, budget, fresh_every):
         def pick(self, tag, k):
             """A ref of the wanted kind: pool results, module constants (objects), or literals."""
             cands = list(self.pool.get(tag, ()))
+            if tag == "bytes":      # keys and signatures are byte strings too (PopProve signs the key bytes)
+                cands += list(self.pool.get("pk", ())) + [{"v": W.desc(v)} for v in LITERALS["pk"]]
             cands += [{"c": p} for p in const_by_tag.get(tag, ())]
             if tag in LITERALS:
                 cands += [{"v": W.desc(v)} for v in LITERALS[tag]]
